@@ -7,7 +7,7 @@
    round-half-even, trailing zeros stripped, exponent form when the decimal exponent is < -4 or >= 6 - then decimal.Decimal's
    "f" formatting, which writes the same digits without exponent), to_ttml_length, to_ttml_color, the enumerations' .value.
    Parsers: imsc/utils.py parse_length (regex ^((?:\+|\-)?\d*(?:\.\d+)?)(px|em|c|%|rh|rw)\Z, ASCII digits, then float()),
-   parse_position, ttconv/utils.py parse_color, StyleProperties.*.extract; float() on the fragment [sign] digits [point digits]
+   parse_position, ttconv/utils.py parse_color (fullmatch of the four patterns, re.ASCII, components at most 255), StyleProperties.*.extract; float() on the fragment [sign] digits [point digits]
    (tts:opacity, tts:luminanceGain).
 
    Numbers are Q: a float written by the code is the rational it denotes, a float read by the code is the decimal
@@ -197,63 +197,98 @@ Definition hexval (c : Z) : option Z :=
   else if (65 <=? c) && (c <=? 70) then Some (c - 55) else None.
 Definition hexpair (a b : Z) : option Z :=
   match hexval a, hexval b with Some x, Some y => Some (x * 16 + y) | _, _ => None end.
-Definition lower (c : Z) : Z := if (65 <=? c) && (c <=? 90) then c + 32 else c.
+(* str.lower as far as membership in NamedColors.__members__ (ASCII names) goes: the only code points outside A-Z whose lower
+   case contains an ASCII letter are U+212A KELVIN SIGN (-> k) and U+0130 (-> i followed by U+0307, which is in no name); the
+   harness checks this claim against str.lower on every code point (harness/gen_c04.py) *)
+Definition lower (c : Z) : Z := if (65 <=? c) && (c <=? 90) then c + 32 else if c =? 8490 then 107 else c.
 Fixpoint assoc_color (l : list (list Z * (Z * Z * Z * Z))) (k : text) : option color :=
   match l with [] => None | (n, c) :: l' => if text_eqb n k then Some c else assoc_color l' k end.
 
-Fixpoint skip_ws (s : text) : text := match s with c :: s' => if (c =? 32) || ((9 <=? c) && (c <=? 13)) then skip_ws s' else s | [] => [] end.
-(* \s*(\d+)\s*  followed by the character [stop]; returns the integer and what follows [stop] *)
-Definition dec_component (lead_ws : bool) (stop : Z) (s : text) : option (Z * text) :=
-  let s1 := if lead_ws then skip_ws s else s in
-  let '(d, r) := span_digits s1 in
+(* \s under re.ASCII: [ \t\n\r\f\v] *)
+Definition is_ws (c : Z) : bool := (c =? 32) || ((9 <=? c) && (c <=? 13)).
+Fixpoint skip_ws (s : text) : text := match s with c :: s' => if is_ws c then skip_ws s' else s | [] => [] end.
+(* \s*(\d+)\s*  followed by the character [stop] (\d under re.ASCII: 0-9); returns the digits of the group and what follows [stop] *)
+Definition dec_component (stop : Z) (s : text) : option (text * text) :=
+  let '(d, r) := span_digits (skip_ws s) in
   match d with
   | [] => None
-  | _ :: _ => match skip_ws r with c :: r' => if c =? stop then Some (digits_val 0 d, r') else None | [] => None end
+  | _ :: _ => match skip_ws r with c :: r' => if c =? stop then Some (d, r') else None | [] => None end
+  end.
+(* \s*(\d+)  followed by [stop]: the first component of _DEC_COLORA_RE, which allows no white space before its comma *)
+Definition dec_component_tight (stop : Z) (s : text) : option (text * text) :=
+  let '(d, r) := span_digits (skip_ws s) in
+  match d, r with
+  | _ :: _, c :: r' => if c =? stop then Some (d, r') else None
+  | _, _ => None
+  end.
+(* _color_component: int(digits), ValueError above 255.  int() itself raises ValueError when the string has more digits (leading zeros
+   included) than sys.get_int_max_str_digits() - Gen/ImscTables.v int_max_str_digits, 4300 unless configured; 0 = no limit *)
+Definition int_refuses (d : text) : bool := (0 <? int_max_str_digits) && (int_max_str_digits <? Z.of_nat (length d)).
+Definition color_component (d : text) : option Z :=
+  if int_refuses d then None else let v := digits_val 0 d in if 255 <? v then None else Some v.
+
+(* _HEX_COLOR_RE.fullmatch: what follows "#" is six or eight hexadecimal digits *)
+Definition hex_color (h : text) : option color :=
+  match h with
+  | [r1; r2; g1; g2; b1; b2] =>
+      match hexpair r1 r2, hexpair g1 g2, hexpair b1 b2 with
+      | Some r, Some g, Some b => Some (r, g, b, 255)
+      | _, _, _ => None
+      end
+  | [r1; r2; g1; g2; b1; b2; a1; a2] =>
+      match hexpair r1 r2, hexpair g1 g2, hexpair b1 b2, hexpair a1 a2 with
+      | Some r, Some g, Some b, Some a => Some (r, g, b, a)
+      | _, _, _, _ => None
+      end
+  | _ => None
+  end.
+(* _DEC_COLOR_RE.fullmatch: what follows "rgb(" *)
+Definition rgb_color (t0 : text) : option color :=
+  match dec_component 44 t0 with
+  | Some (r, t1) => match dec_component 44 t1 with
+    | Some (g, t2) => match dec_component 41 t2 with
+      | Some (b, []) =>
+          match color_component r, color_component g, color_component b with
+          | Some r', Some g', Some b' => Some (r', g', b', 255)
+          | _, _, _ => None
+          end
+      | _ => None end
+    | None => None end
+  | None => None
+  end.
+(* _DEC_COLORA_RE.fullmatch: what follows "rgba(" *)
+Definition rgba_color (t0 : text) : option color :=
+  match dec_component_tight 44 t0 with
+  | Some (r, t1) => match dec_component 44 t1 with
+    | Some (g, t2) => match dec_component 44 t2 with
+      | Some (b, t3) => match dec_component 41 t3 with
+        | Some (a, []) =>
+            match color_component r, color_component g, color_component b, color_component a with
+            | Some r', Some g', Some b', Some a' => Some (r', g', b', a')
+            | _, _, _, _ => None
+            end
+        | _ => None end
+      | None => None end
+    | None => None end
+  | None => None
   end.
 
-(* ttconv.utils.parse_color: named colours (case-insensitive), #rrggbb[aa] (prefix match), rgb(), rgba() *)
+(* ttconv.utils.parse_color: named colours (str.lower of the value is a member name), then fullmatch of #rrggbb[aa], rgb(), rgba();
+   None = ValueError ("Bad Syntax", or a decimal component above 255) *)
 Definition parse_color (s : text) : option color :=
   match assoc_color named_colors (List.map lower s) with
   | Some c => Some c
   | None =>
-      match s with
-      | 35 :: r1 :: r2 :: g1 :: g2 :: b1 :: b2 :: rest =>
-          match hexpair r1 r2, hexpair g1 g2, hexpair b1 b2 with
-          | Some r, Some g, Some b =>
-              match rest with
-              | a1 :: a2 :: _ => match hexpair a1 a2 with Some a => Some (r, g, b, a) | None => Some (r, g, b, 255) end
-              | _ => Some (r, g, b, 255)
-              end
-          | _, _, _ => None
-          end
-      | 114 :: 103 :: 98 :: 40 :: rest =>          (* rgb( *)
-          match dec_component true 44 rest with
-          | Some (r, t1) => match dec_component true 44 t1 with
-            | Some (g, t2) => match dec_component true 41 t2 with
-              | Some (b, _) => Some (r, g, b, 255)
-              | None => None end
-            | None => None end
-          | None => None
-          end
-      | 114 :: 103 :: 98 :: 97 :: 40 :: rest =>    (* rgba(\s*(\d+),\s*(\d+)\s*,...: no white space before the first comma *)
-          match skip_ws rest with
-          | t0 =>
-            let '(d, r) := span_digits t0 in
-            match d, r with
-            | _ :: _, 44 :: t1 =>
-                match dec_component true 44 t1 with
-                | Some (g, t2) => match dec_component true 44 t2 with
-                  | Some (b, t3) => match dec_component true 41 t3 with
-                    | Some (a, _) => Some (digits_val 0 d, g, b, a)
-                    | None => None end
-                  | None => None end
-                | None => None
-                end
-            | _, _ => None
-            end
-          end
-      | _ => None
-      end
+      match strip_prefix [35] s with                                (* # *)
+      | Some h => hex_color h
+      | None =>
+      match strip_prefix [114; 103; 98; 40] s with                  (* rgb( *)
+      | Some t0 => rgb_color t0
+      | None =>
+      match strip_prefix [114; 103; 98; 97; 40] s with              (* rgba( *)
+      | Some t0 => rgba_color t0
+      | None => None
+      end end end
   end.
 
 (* ---- style values ------------------------------------------------------------------------------------------------ *)
